@@ -364,8 +364,18 @@ class World:
                             pass
                         conn.close()
                         continue
+                    # positional arguments of the ninja command line are targets
+                    targets, i_ = [], 1
+                    while i_ < len(a):
+                        if a[i_] in ("-C", "-j", "-k", "-l", "-f", "-d", "-w"):
+                            i_ += 2
+                        elif a[i_].startswith("-"):
+                            i_ += 1
+                        else:
+                            targets.append(a[i_])
+                            i_ += 1
                     sn = simninja.SimNinja(
-                        self, bdir, op.get("sched"), op.get("faults"), env, step_log,
+                        self, bdir, op.get("sched"), op.get("faults"), env, step_log, targets=targets,
                         trace=trace_path, readdir_seed=readdir_seed,
                         kill_after=op.get("kill_after"), edits=op.get("edits"), shadow=self.shadow,
                     )
